@@ -12,7 +12,7 @@ COQ_IMPORTS = ""
 SHARD = 60
 RULE = ("random masks (densities 0.1-0.9, plus single pixels, rings with holes, two components) inside frames up to 9x9 whose kernel "
         "footprint stays inside the frame; kernels kh,kw in {1,3,5,7} independently with signed integer / quarter entries, asymmetric; "
-        "images, blurring images and mapping matrices with integer or k/4 entries of either sign, dense and sparse (zeros included); a "
+        "images, blurring images and mapping matrices with integer, k/4 or tiny (k/8192) entries of either sign, dense and sparse (zeros included); a "
         "separate malformed stream (even kernels, footprints leaving the frame). Entry points: Convolver.convolve_image / "
         "convolve_image_no_blurring / convolve_mapping_matrix, Kernel2D.convolved_array_from / convolved_array_with_mask_from, "
         "SimulatorImaging.via_image_from -> apply_mask -> convolver (zero residual). Non-trivial = at least 2 unmasked pixels and a "
@@ -58,6 +58,7 @@ def rand_vals(rng, n, sparse):
     out = []
     for _ in range(n):
         if sparse and rng.random() < 0.5: out.append(Fraction(0))
+        elif rng.random() < 0.12: out.append(Fraction(rng.choice([-3, -1, 1, 3]), 8192))   # tiny but non-zero (a sparsity threshold would drop it)
         elif rng.random() < 0.3: out.append(Fraction(rng.randint(-20, 20), 4))
         else: out.append(Fraction(rng.randint(-9, 9)))
     return out
